@@ -437,6 +437,49 @@ def slow_teardown_probe(ctx, res):
         group.terminate(timeout=3.0)
 
 
+def execmodel_choice_correspondence(ctx, res):
+    """which model a new worker runs with: every set_execmodel(local, remote) x spec over {thread, main_thread_only} on real
+    popen gateways (the worker is asked for its model) against `exc.choice` (Model/ExecChoice.lean)"""
+    execnet = ctx.execnet
+    models = ["thread", "main_thread_only"]
+    combos = [(e, r, sp) for e in models for r in [None] + models for sp in [None] + models]
+    got = []
+    for e, r, sp in combos:
+        case = {"process_level": "execmodel-choice", "local": e, "remote": r, "spec": sp}
+        res.count(("process", "choice", e, r, sp), nontrivial=True)
+        res.stat("execmodel_choice_gateways")
+        group = execnet.Group()
+        try:
+            if r is None:
+                group.set_execmodel(e)
+            else:
+                group.set_execmodel(e, r)
+            gw = group.makegateway("popen" + ("//execmodel=%s" % sp if sp else ""))
+            ch = gw.remote_exec("import threading\nchannel.send((channel.gateway.execmodel.backend, threading.current_thread() is threading.main_thread()))")
+            backend, on_main = ch.receive(10)
+            got.append((case, backend, on_main))
+        except BaseException as ex:  # noqa: BLE001
+            res.violations.append({"case": case, "finding": None, "what": "gateway for this configuration failed: %r" % (ex,)})
+            return
+        finally:
+            try:
+                group.terminate(timeout=2.0)
+            except Exception:  # noqa: BLE001
+                pass
+    outs = ctx.driver.ask(["exc.choice %s %s %s" % (c["local"], c["remote"] or "-", c["spec"] or "-") for c, _b, _m in got])
+    for (case, backend, on_main), want in zip(got, outs):
+        asked = case["spec"] or case["remote"] or case["local"]
+        if backend != asked:
+            res.violations.append({"case": case, "finding": None,
+                                   "what": "the worker runs with execmodel %r, configured was %r (spec, else the group's remote model, else its local one)" % (backend, asked)})
+        elif backend == "main_thread_only" and on_main is not True:
+            res.violations.append({"case": case, "finding": None, "what": "a main_thread_only worker ran the body outside its main thread"})
+        elif backend != want:
+            res.mismatches.append({"op": "exc.choice", "case": case, "impl": backend, "model": want})
+        else:
+            res.traces += 1
+
+
 PROC_HISTORIES = [["raise", "ret"], ["ret", "ret", "raise", "sysexit", "ret"], ["kbd", "ret"], ["sysexit", "raise", "ret"]]
 
 
@@ -466,6 +509,9 @@ def run(ctx):
     if res.violations:
         return res
     process_level(ctx, res, PROC_HISTORIES if ctx.thorough else PROC_HISTORIES[:1], with_overlap=True, how="group")
+    if res.violations:
+        return res
+    execmodel_choice_correspondence(ctx, res)
     if res.violations:
         return res
     if not ctx.thorough:
@@ -559,6 +605,9 @@ def replay(ctx, payload):
     res = common.Result()
     res.rule = RULE
     case = payload["case"]
+    if case.get("process_level") == "execmodel-choice":
+        execmodel_choice_correspondence(ctx, res)
+        return res
     if "process_level" in case:
         process_level(ctx, res, PROC_HISTORIES, with_overlap=True, how=case.get("configured_by", "spec"))
         return res
